@@ -70,6 +70,7 @@ def configs(tier):
     add("a-B1-sampler", B=1, growers=[1], kind="sampler")
     add("b-B2", B=2, growers=[1, 2])
     add("b-B2-rev", B=2, growers=[2, 1], chunks=1)
+    add("b-B2-shared", B=2, growers=[1, 2], chunks=1, entry="shared")
     add("c-B1-twice", B=1, growers=[1, 1])
     add("c-B2-twice", B=2, growers=[1, 1, 2], chunks=1)
     add("d-B2-poll1-nr", B=2, growers=[1, 2], poll=1, chunks=1,
@@ -133,6 +134,7 @@ class Setup:
                        for a in self.combos["a"]}
         self.resdir = os.path.join(".xyz-" + NAME, "results")
         self.sharing = sched.Sharing()
+        self.sharing.all_visible = cfg["entry"] == "shared"
 
     # ---- actors ---------------------------------------------------------- #
     def actors(self):
@@ -142,7 +144,13 @@ class Setup:
         acts = []
         for n, i in enumerate(cfg["growers"]):
             ids = i if isinstance(i, list) else [i]
-            if cfg["entry"] == "grow":
+            if cfg["entry"] == "shared":
+                # (worker threads of one process that share a Crop object)
+                if n == 0:
+                    shared = _crop(d)
+                acts.append(("G%d.%d" % (ids[0], n), lambda ex, i=ids[0],
+                             c_=shared: grow(i, crop=c_, verbosity=0)))
+            elif cfg["entry"] == "grow":
                 acts.append(("G%d.%d" % (ids[0], n), lambda ex, i=ids[0]: grow(
                     i, crop=_crop(d), verbosity=0)))
             else:
